@@ -14,7 +14,10 @@ DForms(p) == { "from " \o p[1] \o " to " \o p[2], "between " \o p[1] \o " and " 
    written with the {hex} escapes the harness decodes: {5230} = 到, {4ece} = 从 *)
 ZhTimes == << <<"17:20:40", "18:20:10">>, <<"17:55:23", "18:33:02">>, <<"9:05:50", "9:06:10">>, <<"23:59:59", "00:00:01">>, <<"8:00:00", "10:00:00">>, <<"17:20:10", "18:20:40">> >>
 ZhForms(t) == { t[1] \o "-" \o t[2], t[1] \o "{5230}" \o t[2], "{4ece}" \o t[1] \o "{5230}" \o t[2], "2019{5e74}1{6708}3{65e5}" \o t[1] \o "{5230}" \o t[2] }
-ZhTexts == UNION { ZhForms(ZhTimes[j]) : j \in 1..Len(ZhTimes) }
+(* an entity followed by one whose own text begins with a modifier word ({540e} = 后 after, {524d} = 前 before): the word
+   belongs to the second entity, not to the first as a suffix *)
+ZhAdjacent == {"5 {5c0f}{65f6} {540e}1{5e74}", "5{5c0f}{65f6} {540e}1{5e74}", "{4e09}{5929} {524d}{5929}", "{660e}{5929} {540e}{5929}", "2019{5e74}2{6708} {540e}1{5e74}"}
+ZhTexts == UNION { ZhForms(ZhTimes[j]) : j \in 1..Len(ZhTimes) } \cup ZhAdjacent
 Texts == UNION { Forms(Days[i], Times[j]) : i \in 1..Len(Days), j \in 1..Len(Times) } \cup UNION { DForms(DatePairs[k]) : k \in 1..Len(DatePairs) }
 VARIABLES c, pc
 vars == <<c, pc>>
